@@ -384,7 +384,10 @@ def regenerate():
           "Definition pi_backbone : list (string * Z) :=\n  " + zl(bd.get("num_pi_elec_bonds_backbone", [])) + ".",
           "Definition piconj_backbone : list (string * Z) :=\n  " + zl(bd.get("num_pi_elec_conj_bonds_backbone", [])) + ".",
           "Definition pi_sidechains : list (string * Z) :=\n  " + zl(bd.get("num_pi_elec_bonds_sidechains", [])) + ".",
-          "Definition piconj_sidechains : list (string * Z) :=\n  " + zl(bd.get("num_pi_elec_conj_bonds_sidechains", [])) + ".", ""]
+          "Definition piconj_sidechains : list (string * Z) :=\n  " + zl(bd.get("num_pi_elec_conj_bonds_sidechains", [])) + ".", "",
+          "(* X-H bond lengths of the protonator in 1/100 Angstrom *)",
+          "Definition bond_lengths_centi : list (string * Z) :=\n  "
+          + clist([f"({cstr(k)}, ({int(round(float(v) * 100))})%Z)" for k, v in pd.get("bond_lengths", []) if abs(float(v) * 100 - round(float(v) * 100)) < 1e-9]) + ".", ""]
     if common.write_if_changed(common.GEN / "Protonate_gen.v", "\n".join(pt) + "\n"):
         written.append("Protonate_gen")
     cfg = (common.REPO / "propka" / "propka.cfg").read_text()
